@@ -10,7 +10,7 @@ from engine.vloop import Deadlock
 from harness.common import SEC, World, mem_places, observe_consumers, place_names, run_async
 
 
-def h09(S, n_jobs=2, queues=1, max_limit=3, dmax_us=3000, late=False):
+def h09(S, n_jobs=2, queues=1, max_limit=3, dmax_us=3000, late=False, backend="mem"):
     from repid import Job, Router, Worker
     from repid.converter import BasicConverter
 
@@ -24,7 +24,7 @@ def h09(S, n_jobs=2, queues=1, max_limit=3, dmax_us=3000, late=False):
     qnames = ["q%d" % i for i in range(queues)]
 
     async def main(loop):
-        w = World()
+        w = World(backend=backend)
         await w.open(queues=qnames, record=False)
         log = observe_consumers(w.broker)
         r = Router()
@@ -57,12 +57,12 @@ def h09(S, n_jobs=2, queues=1, max_limit=3, dmax_us=3000, late=False):
         t0 = loop.time()
         total_s = sum(d[1:], d[0]) + (arrive if late else 0)
         try:
-            await asyncio.wait_for(worker.run(), timeout=total_s + 1.0)
+            await asyncio.wait_for(worker.run(), timeout=total_s + (1.0 if backend == "mem" else 10.0))
             out["returned"] = True
         except asyncio.TimeoutError:
             out["returned"] = False
         out["makespan"] = loop.time() - t0
-        out["places"] = {qn: mem_places(w.broker, qn) for qn in qnames}
+        out["places"] = {qn: w.places(qn) for qn in qnames}
         out["log"] = log
 
     try:
@@ -78,7 +78,7 @@ def h09(S, n_jobs=2, queues=1, max_limit=3, dmax_us=3000, late=False):
     S.check("each-job-once", len(state["started"]) == n_jobs, info=str(state["started"]))
     total = sum(d[1:], d[0])
     bound = total + (arrive if late else 0)
-    S.check("finishes-within-sum-of-durations-plus-slack", out["makespan"] <= bound + 0.05,
+    S.check("finishes-within-sum-of-durations-plus-slack", out["makespan"] <= bound + (0.05 if backend == "mem" else 2.0),
             info=str(out["makespan"]))
     # while a consumer is paused nothing is delivered from it, and every pause is followed by an unpause
     log = out["log"]
@@ -113,6 +113,14 @@ HARNESSES = [
         functions=["_runner.py:_Runner.run_one_queue"],
         covers=["run-returned"],
     ),
+    Harness(
+        name="H09-redis", scenario=h09, workers=16, budget_s=900,
+        params={"quick": {"n_jobs": 2, "queues": 1, "dmax_us": 250000, "max_limit": 2, "backend": "redis"},
+                "thorough": {"n_jobs": 3, "queues": 1, "dmax_us": 250000, "max_limit": 2, "backend": "redis"}},
+        bounds={"broker": "real Redis broker/consumer (background fetch, prefetch buffer bounded by tasks_limit, pause lock) on the fake server",
+                "actor durations": "each any real in (0, 250 ms] (the consumer polls every 100 ms)", "tasks_limit": "[1, 2]", "jobs": "2 quick / 3 thorough"},
+        functions=["connections/redis/consumer.py:_RedisConsumer.pause", "connections/redis/consumer.py:_RedisConsumer.backgroud_consume"],
+        covers=["run-returned", "pause-observed"], stubs=["fake Redis server"]),
     Harness(
         name="H09-late-arrival", scenario=h09, workers=16, budget_s=900, tiers=("thorough",),
         params={"thorough": {"n_jobs": 2, "queues": 1, "dmax_us": 2000, "late": True}},
